@@ -78,9 +78,22 @@ def _vals(rng, shape, kind="normal", big=True):
     return rng.normal(size=shape)
 
 
-def wrapper_call(kernel, args, nt):
-    """the Python wrapper in front of a kernel, called with the same arguments"""
-    a = tuple(x.copy() if isinstance(x, np.ndarray) else x for x in args[:-1])
+def _layout(x, lay):
+    if not isinstance(x, np.ndarray):
+        return x
+    if lay == "f" and x.ndim > 1:
+        return np.asfortranarray(x.copy())
+    if lay == "strided":  # every second element of a larger buffer along each axis
+        big = np.zeros(tuple(2 * n for n in x.shape), dtype=x.dtype)
+        view = big[tuple(slice(None, None, 2) for _ in x.shape)]
+        view[...] = x
+        return view
+    return x.copy()
+
+
+def wrapper_call(kernel, args, nt, lay="c"):
+    """the Python wrapper in front of a kernel, called with the same arguments (in a given memory layout)"""
+    a = tuple(_layout(x, lay) for x in args[:-1])
     if kernel == "summate":
         return genmod._summate(*a, nt)
     if kernel == "summate_incompr":
@@ -207,12 +220,12 @@ def case_conform(case):
     rc = getattr(CMOD[mod], kernel)(*cargs)
     r.true("compiled artefact == plain interpretation of its own source (bit-wise)", _bits(ri) == _bits(rc), info={"interp": [np.asarray(a).ravel()[:4].tolist() for a in _tup(ri)], "compiled": [np.asarray(a).ravel()[:4].tolist() for a in _tup(rc)]}, **extra)
     # the Python wrapper in front of the kernel forwards exactly these arguments
-    for nt in (None, 2):
+    for nt, lay in ((None, "c"), (2, "c"), (None, "f"), (None, "strided")):
         try:
-            rw = wrapper_call(kernel, args, nt)
-            r.true("Python wrapper == kernel called directly (bit-wise)", _bits(rw) == _bits(rc), info={"wrapper": [np.asarray(a).ravel()[:4].tolist() for a in _tup(rw)], "kernel": [np.asarray(a).ravel()[:4].tolist() for a in _tup(rc)]}, threads=nt, **extra)
+            rw = wrapper_call(kernel, args, nt, lay)
+            r.true("Python wrapper == kernel called directly (bit-wise; C-ordered, Fortran-ordered and strided arguments)", _bits(rw) == _bits(rc), info={"wrapper": [np.asarray(a).ravel()[:4].tolist() for a in _tup(rw)], "kernel": [np.asarray(a).ravel()[:4].tolist() for a in _tup(rc)]}, threads=nt, layout=lay, **extra)
         except Exception as e:  # noqa
-            r.fail("Python wrapper raised on an input the kernel accepts", repr(e)[:200], "result", threads=nt, **extra)
+            r.fail("Python wrapper raised on an input the kernel accepts", repr(e)[:200], "result", threads=nt, layout=lay, **extra)
     rd = defining(kernel, args)
     if kernel == "directional":
         v, c, margin = rd
